@@ -46,7 +46,8 @@ class FirstOrderLift:
         shift:     {row name: constant} -- the lifted cell is (constant + symbol) (level = steady + deviation)
         """
         from irispie.fords import simulators as fs, shock_simulators as fss, kalmans as kk, covariances as cv
-        self.ir, self.fs, self.fss, self.kk, self.cv = ir, fs, fss, kk, cv
+        from irispie.dataslates import _variants as dv
+        self.ir, self.fs, self.fss, self.kk, self.cv, self.dv = ir, fs, fss, kk, cv, dv
         self.lift_rows = set(lift_rows)
         self.values = values
         self.lift_where = lift_where
@@ -112,9 +113,13 @@ class FirstOrderLift:
                  (self.kk, "_INVERSE_FUNCTION", dict(self.kk._INVERSE_FUNCTION, regular=lambda Fm: np.linalg.inv(_ground(Fm))))]
         self._ctx = npproxy.installed(self.proxy, fs, self.fss, self.kk, self.cv, extra=extra)
         self._ctx.__enter__()
+        # log-variables: Dataslate variants logarithmize in their own module (elementwise functions only, float allocation kept)
+        self._ctx2 = npproxy.installed(npproxy.Proxy(object_alloc=False), self.dv)
+        self._ctx2.__enter__()
         return self
 
     def __exit__(self, *exc):
+        self._ctx2.__exit__(*exc)
         self._ctx.__exit__(*exc)
         return False
 
